@@ -17,3 +17,22 @@ def build(reg):
         trusted=["pulser: trajectory.interaction_matrix.as_tensor() is the register's matrix; "
                  "register.find_indices returns indices in range", "element-wise torch semantics (A3)"],
     )
+
+
+# negative controls (thorough tier): (name, file, old text, new text)
+CONTROLS = [('cutoff compares signed values',
+  'emu_base/pulser_adapter.py',
+  'torch.abs(full_interaction_matrix) < self.interaction_cutoff',
+  'full_interaction_matrix < self.interaction_cutoff'),
+ ('SLM mask zeroes rows only',
+  'emu_base/pulser_adapter.py',
+  '                masked_interaction_matrix[:, target] = 0.0\n',
+  ''),
+ ('masked matrix aliases the full one',
+  'emu_base/pulser_adapter.py',
+  'masked_interaction_matrix = full_interaction_matrix.clone()',
+  'masked_interaction_matrix = full_interaction_matrix'),
+ ('full matrix also at the SLM end time boundary',
+  'emu_base/pulser_adapter.py',
+  'if t < self.slm_end_time',
+  'if t <= self.slm_end_time')]
